@@ -30,6 +30,8 @@ PRELUDE = ("struct F { u8 a; u16 b; };\nstruct D { u8 x<>; };\nstruct G { u8 g<.
            # unlimited / dynamic through nesting only, in every position the stiffness computation distinguishes
            "struct GD { u8 d<>; G tail; };\nstruct GN { u8 p; G tail; };\nstruct GNN { u16 q; GN tail; };\n"
            "struct GDY { D d; u8 mid; TG tail; };\ntypedef GD TGD;\n"
+           # earlier structs that happen to have integer fields called like the sizers the breakers name
+           "struct NZ { u32 n; u8 nope; u16 k; u32 num_of_x; };\nstruct NZ2 { NZ h; u8 x<>; };\n"
            "struct DN { u8 p; D d; u8 q; };\nstruct DL { u8 p; D d; };\nstruct DNN { DN a; u8 b; };\ntypedef DNN TDNN;\n")
 
 BREAKERS = [
